@@ -152,7 +152,8 @@ def run_shard(shard, tier):
                     except Exception:
                         acc.nontrivial_add((sp, form, oi, vx))
                     # lax constraints on exact domains: the strict form must accept the output
-                    if is_lax(sp) and sp[1] in EXACT and y0 is not None:
+                    if is_lax(sp) and y0 is not None and (sp[1] in EXACT or (
+                            sp[1] is None and all(c in ("const", "enum") for c, _ in sp[2]))):
                         for c, b in sp[2]:
                             if not b.startswith("Lax("):
                                 continue
@@ -238,7 +239,13 @@ def _drift_class(sp, y, z, opts, vx):
         prod = [i for i, a in enumerate(args) if S.conforms(a, y)]
         capt = [i for i, a in enumerate(args) if S.conforms(a, z)]
         if prod and capt and capt[0] < prod[0]:
-            return "@union-earlier-argument-converts-output"
+            # the recorded design-level drift: an earlier argument takes the output in the union's *strict* stage
+            # (constrained types are not recognised by the exact-type shortcut).  An earlier argument that can take
+            # the output only leniently (with data loss or an explicit cast) must never win over the producer
+            strict = dict(opts or {}, no_data_loss=True, no_explicit_cast=True)
+            if any(_accepts(args[i], strict, y)[0] for i in range(prod[0])):
+                return "@union-earlier-argument-converts-output"
+            return "@union-earlier-argument-converts-output-only-leniently"
         return "@union-other"
     except Exception as e:
         return f"@unclassified-{type(e).__name__}"
